@@ -146,6 +146,54 @@ def build():
                note="content_id is the digest of ENC_cid(self), a function of the class name, the sorted comparable properties and the sorted children's content_ids only; "
                     "the id is the digest of ENC_id(self) when that key is free, otherwise a free collision-suffixed key; the node is registered under it and nothing else changes. "
                     "(type-check gate: C13; flag off in this contract)"))
+    # ---- deserialization: re-use of a registered node or forcing the serialized id ---------------------------
+    PAY = usort("Payload")
+    pay_id = z3.Function("payload_id", PAY.z3(), z3.StringSort())
+    sf["payload_id"] = lambda v: VStr(pay_id(v.term))
+    world.index_hooks = getattr(world, "index_hooks", []) + [
+        lambda m, c, i: VStr(pay_id(c.term)) if isinstance(c, VU) and c.sort == PAY and isinstance(i, VStr) and z3.is_string_value(i.term) and i.term.as_string() == "id" else None]
+
+    def attr_d(m, obj, name):
+        fresh = m.ghost_env.get("_fresh_node")
+        if fresh is not None and isinstance(obj, VU) and obj.sort == REF and obj.term.get_id() == fresh.term.get_id() and name == "id" and not m.spec:
+            return m.global_syms["NEW_ID"]
+        if isinstance(obj, VPy) and obj.obj == ("super",) and name == "_deserialize":
+            return VPy(("super_deser",))
+        return None
+
+    def call_d(m, func, args, kwargs, node):
+        if isinstance(func, VPy) and func.obj == ("builtin", "super"):
+            return VPy(("super",))
+        if isinstance(func, VPy) and func.obj == ("super_deser",):
+            n = m.call_contract("mashumaro:from_dict_node", [args[0]], {})
+            m.ghost_env["_fresh_node"] = n
+            return n
+        if isinstance(func, VPy) and func.obj == ("setattr",) and isinstance(args[0], VU) and args[0].sort == REF and m.contract.qualname.endswith("_deserialize"):
+            fresh = m.ghost_env.get("_fresh_node")
+            nm = args[1].term.as_string() if isinstance(args[1], VStr) else args[1].obj
+            if fresh is None or args[0].term.get_id() != fresh.term.get_id() or nm != "id":
+                raise EngineError("object.__setattr__ on an object that is not the freshly deserialized node")
+            m.global_syms["NEW_ID"] = STR.coerce(args[2])
+            return NONE
+        return NotImplemented
+
+    world.attr_hooks.insert(0, attr_d)
+    world.call_hooks.insert(0, call_d)
+    GD = {"NODE_REGISTRY": "Dict[str,Ref]", "NEW_ID": "str"}
+    A(Contract("mashumaro:from_dict_node", params={"value": "Payload"}, returns="Ref", globals=GD, modifies=["NODE_REGISTRY", "NEW_ID"], props=["C03", "C04"], trusted=True,
+               trusted_reason="DataClassSerializeMixin._deserialize -> mashumaro from_dict: constructs a new node (children resolved by this same _deserialize); its __post_init__ "
+                              "registers it under a free id (proved above), here called NEW_ID",
+               raises=[("Exception", "*")], exc_ensures=["NODE_REGISTRY == old(NODE_REGISTRY)"],
+               ensures=["reg_get(old(NODE_REGISTRY), NEW_ID) is None", "NODE_REGISTRY == reg_set(old(NODE_REGISTRY), NEW_ID, result)",
+                        "registered_nowhere(old(NODE_REGISTRY), result)"]))
+    nowhere = z3.Function("registered_nowhere", nv.REG.z3(), REF.z3(), z3.BoolSort())
+    sf["registered_nowhere"] = lambda r, n: VBool(nowhere(r.term, nv.ref(n)))
+    A(Contract(f"{M}:ASTNode._deserialize", params={"cls": "py:cls", "value": "Payload"}, returns="Ref", globals=GD, modifies=["NODE_REGISTRY", "NEW_ID"], props=["C03", "C04"],
+               may_raise=["Exception"], exc_ensures=["NODE_REGISTRY == old(NODE_REGISTRY)"],
+               ensures=["implies(reg_get(old(NODE_REGISTRY), payload_id(value)) is not None, result == reg_get(old(NODE_REGISTRY), payload_id(value)) and NODE_REGISTRY == old(NODE_REGISTRY))",
+                        "implies(reg_get(old(NODE_REGISTRY), payload_id(value)) is None, NODE_REGISTRY == reg_set(old(NODE_REGISTRY), payload_id(value), result) and NEW_ID == payload_id(value))"],
+               note="a node still registered under the serialized id is returned itself; otherwise the new node ends up registered under exactly the serialized id "
+                    "(its construction-time id entry is removed) and under no other key"))
     A(Contract(f"{M}:ASTNode.is_equal", params={"self": "Ref", "other": "Ref"}, returns="bool", props=["C01"],
                ensures=["result == (cls_of(other) == cls_of(self) and self.content_id == other.content_id)"]))
     return world, lib, reg, []
